@@ -17,6 +17,6 @@ echo "== baseline with patch"
 BASELINE_REPO=$W /verif/tools/baseline.sh | head -3
 for c in $CHECKS; do
   echo "== check $c (quick) with patch"
-  ( cd /verif && VERIF_REPO=$W PYTHONPATH=$W/src ./vcheck $c --tier quick --no-evidence > /tmp/seed_check_$c.log 2>&1; echo "   rc=$?"; grep -E "counterexample|VIOLATION|HARNESS-ERROR|INCONCLUSIVE" /tmp/seed_check_$c.log | head -5; tail -1 /tmp/seed_check_$c.log )
+  ( cd /verif && VERIF_REPO=$W PYTHONPATH=$W/src ./vcheck $c --tier quick --no-evidence ${ONLY:+--only $ONLY} > /tmp/seed_check_$c.log 2>&1; echo "   rc=$?"; grep -E "counterexample|VIOLATION|HARNESS-ERROR|INCONCLUSIVE" /tmp/seed_check_$c.log | head -5; tail -1 /tmp/seed_check_$c.log )
 done
 rm -f /tmp/seed_demo0.$$.log /tmp/seed_demo1.$$.log
